@@ -489,6 +489,29 @@ impl Ranking {
                 r.2 *= f;
             }
             cx.count("stores with ratings spread over the whole usize range");
+        } else if cx.rng.chance(1, 10) {
+            // every second record gets its neighbour's rating with one bit flipped (any of the 64), and half of the time its
+            // title: two ratings that differ in one bit are as distinct as any two
+            let mut seen: BTreeSet<usize> = recs.iter().map(|r| r.2).collect();
+            let mut flipped = false;
+            for i in (1..recs.len()).step_by(2) {
+                for _ in 0..4 {
+                    let cand = recs[i - 1].2 ^ (1usize << cx.rng.below(64));
+                    if !seen.contains(&cand) {
+                        seen.remove(&recs[i].2);
+                        seen.insert(cand);
+                        recs[i].2 = cand;
+                        if cx.rng.chance(1, 2) {
+                            recs[i].1 = recs[i - 1].1.clone();
+                        }
+                        flipped = true;
+                        break;
+                    }
+                }
+            }
+            if flipped {
+                cx.count("stores with pairs of ratings that differ in exactly one bit");
+            }
         }
         let limit = *cx.rng.pick(&[n, n + 1, 10.max(n / 10 + 1), (n + 9) / 10, n.max(3) / 3 + 1]);
         let limit = limit.max((n + 9) / 10); // |store| <= 10*limit
@@ -980,52 +1003,68 @@ impl Ranking {
             let got = st.search(q);
             cx.eval();
             let n = recs.len();
-            let mut errs: Vec<String> = vec![];
-            if got.len() != limit.min(n) {
-                errs.push(format!("length {} != min(limit, records) = {}", got.len(), limit.min(n)));
+            let mut errs = empty_query_errors(&st, &recs, limit, &got, distinct);
+            if distinct {
+                cx.count("stores with distinct ratings");
+            } else if got.len() < n {
+                cx.count("truncated lists with tied ratings");
             }
-            let ids: BTreeSet<usize> = got.iter().map(|h| h.0).collect();
-            if ids.len() != got.len() {
-                errs.push("a record is listed twice".into());
-            }
-            if got.iter().any(|h| h.1.contains(S1) || h.1.contains(S2)) {
-                errs.push("highlight in an empty-query hit".into());
-            }
-            if ids.iter().any(|id| *id >= n) {
-                errs.push("unknown id".into());
-            } else {
-                let keys: std::collections::BTreeMap<usize, Vec<char>> = recs.iter().map(|r| (r.0, st.tok_record(&r.1).chars)).collect();
-                let ratings_by_id: std::collections::BTreeMap<usize, usize> = recs.iter().map(|r| (r.0, r.2)).collect();
-                let rating = |id: usize| ratings_by_id[&id];
-                let key = |id: usize| &keys[&id];
-                for w in got.windows(2) {
-                    if rating(w[0].0) < rating(w[1].0) {
-                        errs.push(format!("rating increases from id {} to id {}", w[0].0, w[1].0));
+            if errs.is_empty() && cx.rng.chance(1, 6) {
+                // the same records, limit and query through the top-level registry (what the JS wrapper calls): the limit
+                // arrives through set_limit or through the store handed out by using_store (sometimes raising an earlier
+                // set_limit), before or after the records; the records through add_record or prepared by the caller
+                let id = (cx.idx as usize + 7_000_000) * 2 + round;
+                let how = cx.rng.below(3);
+                let limit_first = cx.rng.chance(1, 2);
+                let mut hist = vec![format!("create({}, {})", id, lang)];
+                create_store(id, take_lang(lang));
+                highlight_with(id, (&S1.to_string(), &S2.to_string()));
+                let set = |hist: &mut Vec<String>, rng: &mut Rng| match how {
+                    0 => {
+                        hist.push(format!("set_limit({})", limit));
+                        set_limit(id, limit);
+                    }
+                    1 => {
+                        hist.push(format!("using_store(|s| s.limit = {})", limit));
+                        using_store(id, |s| s.limit = limit);
+                    }
+                    _ => {
+                        let first = rng.below(limit + 1);
+                        hist.push(format!("set_limit({}), using_store(|s| s.limit = {})", first, limit));
+                        set_limit(id, first);
+                        using_store(id, |s| s.limit = limit);
+                    }
+                };
+                if limit_first {
+                    set(&mut hist, &mut cx.rng);
+                }
+                for r in &recs {
+                    if cx.rng.chance(1, 4) {
+                        let (rid, t, ra) = (r.0, r.1.clone(), r.2);
+                        using_store(id, |s| {
+                            let rec = Record::new(rid, &t, ra, &s.lang);
+                            s.add(rec);
+                        });
+                    } else {
+                        add_record(id, r.0, &r.1, r.2);
                     }
                 }
-                for om in 0..n {
-                    if ids.contains(&om) {
-                        continue;
-                    }
-                    for li in &ids {
-                        if rating(om) > rating(*li) {
-                            errs.push(format!("omitted id {} has a higher rating than listed id {}", om, li));
-                        }
-                        if rating(om) == rating(*li) && key(om) < key(*li) {
-                            errs.push(format!("omitted id {} has the same rating and an earlier title than listed id {}", om, li));
-                        }
-                    }
+                hist.push(format!("{} records added", recs.len()));
+                if !limit_first {
+                    set(&mut hist, &mut cx.rng);
                 }
-                if distinct {
-                    let mut model: Vec<usize> = (0..n).collect();
-                    model.sort_by(|a, b| rating(*b).cmp(&rating(*a)));
-                    model.truncate(limit);
-                    if got.iter().map(|h| h.0).collect::<Vec<_>>() != model {
-                        errs.push(format!("distinct ratings: expected order {:?}", model));
-                    }
-                    cx.count("stores with distinct ratings");
-                } else if got.len() < n {
-                    cx.count("truncated lists with tied ratings");
+                run_search(id, q);
+                let got_r: Hits = using_results(id, |b| b.iter().map(|r| (r.id, r.title.clone())).collect());
+                destroy_store(id);
+                cx.eval();
+                cx.count("empty-query lists read through the registry");
+                if how > 0 {
+                    cx.count("registry stores whose limit was written through using_store");
+                }
+                errs = empty_query_errors(&st, &recs, limit, &got_r, distinct);
+                if !errs.is_empty() {
+                    cx.fail("empty-query-list", json!({"lang": lang, "records": recs, "limit": limit, "query": q, "got": got_r, "errors": errs, "round": round, "through_the_registry": hist, "bare_store_list_was_right": true}));
+                    return;
                 }
             }
             if limit == 0 {
@@ -1046,6 +1085,57 @@ impl Ranking {
     }
 }
 
+/// C12's laws for one empty-query list `got` of a store holding `recs` under `limit`.
+fn empty_query_errors(st: &St, recs: &[Rec], limit: usize, got: &Hits, distinct: bool) -> Vec<String> {
+    let n = recs.len();
+    let mut errs: Vec<String> = vec![];
+    if got.len() != limit.min(n) {
+        errs.push(format!("length {} != min(limit, records) = {}", got.len(), limit.min(n)));
+    }
+    let ids: BTreeSet<usize> = got.iter().map(|h| h.0).collect();
+    if ids.len() != got.len() {
+        errs.push("a record is listed twice".into());
+    }
+    if got.iter().any(|h| h.1.contains(S1) || h.1.contains(S2)) {
+        errs.push("highlight in an empty-query hit".into());
+    }
+    if ids.iter().any(|id| *id >= n) {
+        errs.push("unknown id".into());
+    } else {
+        let keys: std::collections::BTreeMap<usize, Vec<char>> = recs.iter().map(|r| (r.0, st.tok_record(&r.1).chars)).collect();
+        let ratings_by_id: std::collections::BTreeMap<usize, usize> = recs.iter().map(|r| (r.0, r.2)).collect();
+        let rating = |id: usize| ratings_by_id[&id];
+        let key = |id: usize| &keys[&id];
+        for w in got.windows(2) {
+            if rating(w[0].0) < rating(w[1].0) {
+                errs.push(format!("rating increases from id {} to id {}", w[0].0, w[1].0));
+            }
+        }
+        for om in 0..n {
+            if ids.contains(&om) {
+                continue;
+            }
+            for li in &ids {
+                if rating(om) > rating(*li) {
+                    errs.push(format!("omitted id {} has a higher rating than listed id {}", om, li));
+                }
+                if rating(om) == rating(*li) && key(om) < key(*li) {
+                    errs.push(format!("omitted id {} has the same rating and an earlier title than listed id {}", om, li));
+                }
+            }
+        }
+        if distinct {
+            let mut model: Vec<usize> = (0..n).collect();
+            model.sort_by(|a, b| rating(*b).cmp(&rating(*a)));
+            model.truncate(limit);
+            if got.iter().map(|h| h.0).collect::<Vec<_>>() != model {
+                errs.push(format!("distinct ratings: expected order {:?}", model));
+            }
+        }
+    }
+    errs
+}
+
 /// Single-word function words (frozen list, DESIGN.md Appendix A).
 pub fn function_words(lang: &str) -> Vec<&'static str> {
     if lang == "xd" {
@@ -1059,6 +1149,7 @@ pub fn function_words(lang: &str) -> Vec<&'static str> {
         "pt" => vec!["o", "a", "de", "e", "com", "para", "em", "um", "uma", "os", "as", "além", "até", "atrás", "próximo", "então", "porém"],
         "ru" => vec!["и", "в", "на", "с", "для", "не", "же", "по", "а", "но", "путём"],
         "xk" => vec!["の", "が"],
+        "xr" => vec!["zu", "av", "på", "außer"],
         _ => vec![],
     }
 }
@@ -1091,9 +1182,9 @@ impl Prop for Ranking {
     fn floors(&self) -> Vec<(&'static str, u64, u64)> {
         match self.0 {
             Which::Verdicts => vec![("truncated (more matches than limit)", 200, 2000), ("beyond the 10x cap (soundness only)", 100, 1000), ("limit 0", 50, 500), ("selection buffer refilled (matches >= 2*limit)", 100, 1000), ("store with tied ratings (set comparison)", 50, 500), ("empty query", 50, 500), ("corpus-store searches", 100, 2000), ("corpus-store searches compared with the unlimited corpus store", 10, 200), ("large stores (limit 50-200)", 400, 8000), ("large stores whose match count is an exact multiple of the limit", 20, 400), ("stores of more than 2048 records", 8, 160), ("stores of 66-260 records", 300, 3000), ("stores built in stages with searches and limit changes in between", 3000, 30000), ("configurations whose reference stores live on threads of their own", 1500, 15000), ("stores of 33 000 - 140 000 records with one title", 8, 48), ("stores of exactly 10*limit records sharing one word", 100, 1000)],
-            Which::Order => vec![("pair stores", 2000, 20000), ("permuted stores", 2000, 20000), ("searches with >= 2 hits", 300, 3000), ("truncated lists compared across permutations", 30, 300), ("stores of similar words", 500, 5000), ("pairs involving a hit ranked 7th or lower", 300, 3000), ("large stores (limit 50-200)", 200, 4000), ("stores of more than 2048 records", 4, 80), ("stores with ratings in [2^31, 2^32)", 200, 2000), ("stores with ratings spread over the whole usize range", 100, 1000), ("configurations whose reference stores live on threads of their own", 200, 2000), ("stores built in stages with searches and limit changes in between", 300, 3000), ("stores shadowed by a store of another language on the same thread", 500, 5000), ("stores whose past holds an over-cap search that left a gram-free fuzzy match behind", 50, 500)],
+            Which::Order => vec![("pair stores", 2000, 20000), ("permuted stores", 2000, 20000), ("searches with >= 2 hits", 300, 3000), ("truncated lists compared across permutations", 30, 300), ("stores of similar words", 500, 5000), ("pairs involving a hit ranked 7th or lower", 300, 3000), ("large stores (limit 50-200)", 200, 4000), ("stores of more than 2048 records", 4, 80), ("stores with ratings in [2^31, 2^32)", 200, 2000), ("stores with ratings spread over the whole usize range", 100, 1000), ("stores with pairs of ratings that differ in exactly one bit", 150, 1500), ("configurations whose reference stores live on threads of their own", 200, 2000), ("stores built in stages with searches and limit changes in between", 300, 3000), ("stores shadowed by a store of another language on the same thread", 500, 5000), ("stores whose past holds an over-cap search that left a gram-free fuzzy match behind", 50, 500)],
             Which::Rules => vec![("rule exact>typo", 500, 5000), ("rule both>one", 500, 5000), ("rule prefix: exact>tail", 500, 5000), ("rule adjacent>gap", 500, 5000), ("rule first>second", 500, 5000), ("rule identical titles: rating decides", 300, 3000), ("rule equal rating: shorter title first", 300, 3000), ("rule function word: content word first", 1000, 10000), ("u made of two function words run together", 300, 3000), ("rule cases with a third, unrelated record", 20000, 200000), ("identical titles with ratings 1-3 apart", 1000, 10000), ("tails of 13-70 letters", 500, 5000), ("u tagged with a part of speech that is not a function-word kind", 150, 1500), ("rule cases on stores with several copies of both titles", 5000, 50000)],
-            Which::Empty => vec![("searches after further adds", 1000, 10000), ("truncated lists with tied ratings", 500, 5000), ("stores with distinct ratings", 500, 5000), ("limit 0", 100, 1000), ("stores of 13-60 records", 1000, 10000), ("stores whose titles share a prefix of 20-40 characters", 1500, 15000), ("stores with adjacent ratings above 2^24", 1000, 10000), ("searches after a limit change", 1000, 10000), ("adds under a temporarily lowered limit", 1000, 10000), ("empty-query searches right after a search with words", 5000, 50000)],
+            Which::Empty => vec![("searches after further adds", 1000, 10000), ("truncated lists with tied ratings", 500, 5000), ("stores with distinct ratings", 500, 5000), ("limit 0", 100, 1000), ("stores of 13-60 records", 1000, 10000), ("stores whose titles share a prefix of 20-40 characters", 1500, 15000), ("stores with adjacent ratings above 2^24", 1000, 10000), ("searches after a limit change", 1000, 10000), ("adds under a temporarily lowered limit", 1000, 10000), ("empty-query searches right after a search with words", 5000, 50000), ("empty-query lists read through the registry", 3000, 30000), ("registry stores whose limit was written through using_store", 2000, 20000)],
         }
     }
     fn ratios(&self) -> Vec<(&'static str, &'static str, f64, f64)> {
